@@ -70,6 +70,9 @@ void supla_esp_input_start_debounce_timer(supla_input_cfg_t *input_cfg) {
     os_timer_setfn(&input_cfg->debounce_timer, 
         supla_esp_input_debounce_timer_cb, input_cfg);
     os_timer_arm(&input_cfg->debounce_timer, INPUT_CYCLE_TIME, true);
+  } else {
+    // an edge while debouncing restarts the count of stable samples
+    input_cfg->debounce_step = 1;
   }
 }
 
